@@ -1113,6 +1113,11 @@ def growth_summaries(P, grow):
     return summ
 
 
+SEARCHERS = {"strstr", "strchr", "strrchr", "strpbrk", "memchr", "strcasestr"}
+STRING_READERS = {"strlen", "strcmp", "strncmp", "strcpy", "strncpy", "strcat", "strncat", "memcpy", "memmove", "memcmp", "strcspn", "strspn",
+                  "atoi", "atol", "strtol", "strdup", "strndup", "my_strdup", "my_strndup"}
+
+
 def r_stale(P, chk):
     rid = "R-STALE"
     chk.rule(rid, "a local pointer derived from a realloc-grown buffer (X->F, &X->F[i], X->F + i) is not dereferenced after a call "
@@ -1146,6 +1151,8 @@ def r_stale(P, chk):
                     y = strip(y["c"][0])
                 elif y["k"] == "BinaryOperator" and y["op"] in ("+", "-"):
                     y = strip(y["c"][0])
+                elif y["k"] == "CallExpr" and y.get("callee") in SEARCHERS and len(y["c"]) > 1:
+                    y = strip(y["c"][1])       # strstr(X->F + i, ..) points into the same buffer
                 else:
                     break
             if y is not None and y["k"] == "MemberExpr" and (y.get("rec"), y["n"]) in grow:
@@ -1200,6 +1207,14 @@ def r_stale(P, chk):
                     uses.append(x)
                 elif x["k"] == "ArraySubscriptExpr" and key(x["c"][0]) == name:
                     uses.append(x)
+                elif x["k"] == "CallExpr" and (x.get("callee") in STRING_READERS or x.get("callee") in SEARCHERS):
+                    # handing the pointer (or pointer +- k) to a libc routine that reads through it
+                    for a in x["c"][1:]:
+                        z = strip(a)
+                        while z is not None and z["k"] == "BinaryOperator" and z["op"] in ("+", "-"):
+                            z = strip(z["c"][0])
+                        if z is not None and z["k"] == "DeclRefExpr" and z["n"] == name:
+                            uses.append(x)
             use_pos = {}
             for u_ in uses:
                 if u_["i"] in pos:
